@@ -31,7 +31,9 @@ def run_call(c, variant):
     if c["tlo"] == -1:
         target = None
     elif c["thi"] - c["tlo"] == 1 and variant % 2 == 0:
-        target = c["tlo"]
+        target = c["tlo"] if variant % 4 == 0 else c["tlo"] - c["T"]          # the same output counted from the end (-1 = last)
+    elif variant % 4 == 1:
+        target = slice(c["tlo"] - c["T"], c["thi"] - c["T"] if c["thi"] < c["T"] else None)      # the same slice with negative bounds
     else:
         target = slice(c["tlo"], c["thi"])
     ins = [x] + (list(args) if args else [])
@@ -87,7 +89,11 @@ def gen_call(rng):
     tlo, thi = -1, 0
     if not raw and rng.random() < 0.7:
         tlo = rng.randrange(T); thi = rng.randint(tlo + 1, T)
-    return dict(x=x, A=A, args=[rng.randint(-9, 9) for _ in range(n)] if rng.random() < 0.5 else [], start=start, end=end,
+    args = [rng.randint(-9, 9) for _ in range(n)] if rng.random() < 0.5 else []
+    if args and rng.random() < 0.3:
+        # outputs that need more than 24 bits of mantissa: exact in the model's float64, not in float32
+        args = [rng.choice([16777217, 33554433, -33554431]) + rng.randint(0, 8) for _ in range(n)]
+    return dict(x=x, A=A, args=args, start=start, end=end,
                 bs=rng.choice([1, 2, 3, 7, 32, A * L + 1]), out=out, T=T, U=1 if raw else rng.choice([1, 2]), tlo=tlo, thi=thi,
                 hyp=rng.random() < 0.5, raw=raw)
 
